@@ -316,5 +316,6 @@ func main() {
 	writeIfChanged(filepath.Join(out, "Types.v"), p.emitTypes())
 	writeIfChanged(filepath.Join(out, "Preds.v"), p.emitPreds())
 	writeIfChanged(filepath.Join(out, "PoolGen.v"), p.emitStateful())
+	writeIfChanged(filepath.Join(out, "DemuxGen.v"), p.emitDemuxGen())
 	writeIfChanged(filepath.Join(out, "Alias.v"), p.emitAlias()+p.emitGlobals())
 }
